@@ -7,18 +7,30 @@ package obiformats
 // Fault enumeration on the real reading code (level: fault_enumeration):
 //
 //   base files   small FASTA / FASTQ (and, thorough tier, a 1.2 MiB FASTA whose decoded stream outlives the
-//                1 MiB MIME sniff buffer) x {gzip, bzip2, xz, zstd}, compressed by the harness.
+//                1 MiB MIME sniff buffer); small EMBL, GenBank, CSV and ecoPCR files (the other readers behind
+//                ReadSequencesFromFile and --embl / --genbank / --ecopcr); a FASTA file whose first record is
+//                1.25 MiB long (the chunk reader has to extend its buffer: second read site).
+//   images       {gzip, bzip2, xz, zstd} x { written by the Go encoders | written by the gzip, bzip2, xz, zstd
+//                commands (embedded; other block / header layouts: e.g. deflate streams of zlib are full of
+//                (length, distance) pairs inside which klauspost/flate mistakes the end of input for a clean
+//                end of stream) | two concatenated members }
 //   faults       trunc   every truncation length 1..len-1 of the compressed file
 //                flip    every single-bit flip of the compressed file (small files)
 //                rderr   an io.Reader that delivers k bytes and then fails: errors.New("EIO") after every k of the
 //                        compressed stream; EIO and io.ErrUnexpectedEOF after every k of the plain stream
-//   drivers      file    ReadSequencesFromFile(temp file)                      (in-process, real entry point)
-//                reader  Buf -> OBIMimeTypeGuesser -> ReadFasta/ReadFastq      (in-process, the 20 glue lines of
-//                        ReadSequencesFromFile re-stated over an io.Reader so that a read error can be injected)
-//                bin     the obiconvert binary built from the tree, on a hashed subset of the `file` cases
-//                        (exit status; agreement with the in-process verdict is counted)
-//                stdin   the obiconvert binary reading the faulted gzip file on stdin (C kseq/gzread path),
-//                        every truncation and every bit flip
+//   drivers      file       ReadSequencesFromFile(temp file)                   (in-process, real entry point)
+//                fileimp    ReadFasta/Fastq/EMBL/Genbank/CSV/EcoPCRFromFile    (in-process, format imposed)
+//                reader     Buf -> OBIMimeTypeGuesser -> Read<format>          (in-process, the 20 glue lines of
+//                           ReadSequencesFromFile re-stated over an io.Reader so that a read error can be injected)
+//                readerimp  Buf -> Read<format>                                (same for the imposed-format readers)
+//                bin        the obiconvert binary built from the tree, on a hashed subset of the `file` cases
+//                           (exit status; agreement with the in-process verdict is counted)
+//                cli        command-level variants on the `file` cases of selected images (every truncation,
+//                           hashed bit flips): --<format> F, I F, F I, --no-order I F, I --paired-with F,
+//                           F --paired-with I, obiuniq F  (I = intact copy; wrappers of CLIReadBioSequences:
+//                           ReadSequencesBatchFromFiles, PairTo, a command that loads everything first)
+//                stdin      the obiconvert binary reading the faulted gzip file on stdin (C kseq/gzread path),
+//                           every truncation and every bit flip
 //
 // Oracle (DESIGN §3 C17): success (no error returned, no fatal exit / exit status 0) implies that the records
 // delivered equal the complete original record list. Anything else (error, fatal, panic, crash) is a report.
@@ -31,8 +43,13 @@ package obiformats
 // goroutine of the code under test is an observed outcome ("crash", i.e. non-zero exit) and not a harness
 // failure. Each shard drives several children concurrently (the pipelines mostly sleep in 1 ms polls).
 //
-// Violation keys: <driver>/<fault>/<symptom>:<what the decompressor reports>@<site that loses it>; the part
-// after ':' comes from a labelling probe (never used for the verdict).
+// Violation keys: <entry point>[format]/<fault>/<symptom>:<what the decompressor reports>@<site that loses
+// it>:<image>:<region of the fault>; when the decompression library itself ends the stream cleanly on the
+// damaged input the entry point is irrelevant and the key is decoder[<library>]/<fault>/...:<image>:<region>.
+// The part after the first ':' comes from a labelling probe (never used for the verdict).
+//
+// A format whose reader cannot read the intact control file is skipped (noted, counted). After two confirmed
+// hangs in one (base, image, driver, fault) group the rest of the group is skipped (run not exhaustive).
 //
 // Knobs (debugging only): VERIF_C17_BASES=fa300,fq2k,... restricts the base files (run marked not exhaustive);
 // VERIF_C17_WORKERS children per shard; VERIF_C17_KEEP=dir keeps intact images; VERIF_C17_CPUPROFILE.
@@ -44,6 +61,7 @@ import (
 	stdgzip "compress/gzip"
 	"context"
 	"crypto/sha1"
+	"encoding/base64"
 	"encoding/hex"
 	"encoding/json"
 	"errors"
@@ -77,11 +95,13 @@ type c17rec struct{ id, seq, qual string }
 
 type c17base struct {
 	Name  string
-	Fmt   string
+	Fmt   string // fasta | fastq | embl | genbank | csv | ecopcr
 	Plain []byte
 	N     int
 	Want  string // digest of the complete record list
+	Recs  []c17rec
 	Large bool
+	Split int // byte offset of a record boundary near the middle of Plain (two-member images)
 }
 
 type c17lcg uint64
@@ -99,8 +119,37 @@ func c17digestRecs(recs []c17rec) string {
 	return hex.EncodeToString(h.Sum(nil))
 }
 
+// c17digestSorted: digest of the record list as a multiset (commands reading several files).
+func c17digestSorted(recs []c17rec) string {
+	l := make([]string, len(recs))
+	for i, r := range recs {
+		l[i] = r.id + "\x00" + r.seq + "\x00" + r.qual
+	}
+	sort.Strings(l)
+	h := sha1.New()
+	for _, x := range l {
+		io.WriteString(h, x+"\n")
+	}
+	return hex.EncodeToString(h.Sum(nil))
+}
+
+func c17tenmers(s string) string {
+	var p []string
+	for i := 0; i < len(s); i += 10 {
+		e := i + 10
+		if e > len(s) {
+			e = len(s)
+		}
+		p = append(p, s[i:e])
+	}
+	return strings.Join(p, " ")
+}
+
 // c17makeBase builds a deterministic sequence file. FASTA: one sequence line per record; FASTQ: 4-line
-// records, quality lines never start with '@' or '+' (chunk splitting heuristics belong to C01).
+// records, quality lines never start with '@' or '+' (chunk splitting heuristics belong to C01). The flat
+// file formats (EMBL, GenBank), CSV and ecoPCR bases exercise the other readers that ReadSequencesFromFile
+// and the --embl / --genbank / --ecopcr options dispatch to. fa1rec is a FASTA file whose first record is
+// longer than the 1 MiB chunk of the chunk reader (the reader has to extend its buffer: second read site).
 func c17makeBase(name string) *c17base {
 	var nrec, slen int
 	var fm string
@@ -116,16 +165,47 @@ func c17makeBase(name string) *c17base {
 		fm, nrec, slen = "fasta", 20, 90
 	case "fa1m2":
 		fm, nrec, slen, large = "fasta", 11500, 100, true
+	case "fa1rec":
+		fm, nrec, slen = "fasta", 2, 50
+	case "em400":
+		fm, nrec, slen = "embl", 3, 70
+	case "gb400":
+		fm, nrec, slen = "genbank", 3, 70
+	case "cs200":
+		fm, nrec, slen = "csv", 5, 40
+	case "ec700":
+		fm, nrec, slen = "ecopcr", 4, 40
 	default:
 		panic("c17: unknown base " + name)
 	}
 	g := c17lcg(0x9e3779b97f4a7c15 ^ uint64(len(name))*977 ^ uint64(nrec))
 	var buf bytes.Buffer
 	recs := make([]c17rec, 0, nrec)
+	split := 0
+	switch fm {
+	case "csv":
+		buf.WriteString("id,count,sequence\n")
+	case "ecopcr":
+		buf.WriteString("#@ecopcr-v2\n#\n# ecoPCR version 1.0.1\n" +
+			"# direct  strand oligo1 : GGGCAATCCTGAGCCAA               ; oligo2c :           CCATTGAGTCTCTGCACCTATC\n" +
+			"# reverse strand oligo2 : GATAGGTGCAGAGACTCAATGG          ; oligo1c :                TTGGCTCAGGATTGCCC\n" +
+			"# max error count by oligonucleotide : 3\n# optimisation on the reverse strand\n# database : /tmp/db\n" +
+			"# amplifiat length between [10,120] bp\n# output in superkingdom mode\n# DB sequences are considered as linear\n#\n")
+	}
 	for i := 0; i < nrec; i++ {
-		seq := make([]byte, slen)
+		if i == (nrec+1)/2 {
+			split = buf.Len()
+		}
+		n := slen
+		if name == "fa1rec" && i == 0 {
+			n = 1000 // the unit of a periodic 1.25 MiB sequence (compresses to a few KiB)
+		}
+		seq := make([]byte, n)
 		for j := range seq {
 			seq[j] = "acgt"[g.next()&3]
+		}
+		if name == "fa1rec" && i == 0 {
+			seq = bytes.Repeat(seq, 1310)
 		}
 		rec := c17rec{seq: string(seq)}
 		if large {
@@ -133,13 +213,14 @@ func c17makeBase(name string) *c17base {
 		} else {
 			rec.id = fmt.Sprintf("c17%s%02d", name[:2], i)
 		}
-		if fm == "fasta" {
+		switch fm {
+		case "fasta":
 			if i%2 == 1 && !large {
 				fmt.Fprintf(&buf, ">%s {\"count\":%d}\n%s\n", rec.id, i+1, rec.seq)
 			} else {
 				fmt.Fprintf(&buf, ">%s\n%s\n", rec.id, rec.seq)
 			}
-		} else {
+		case "fastq":
 			q := make([]byte, slen)
 			for j := range q {
 				q[j] = byte('#' + g.next()%39) // '#'..'I'
@@ -147,10 +228,39 @@ func c17makeBase(name string) *c17base {
 			q[0] = 'F'
 			rec.qual = string(q)
 			fmt.Fprintf(&buf, "@%s\n%s\n+\n%s\n", rec.id, rec.seq, rec.qual)
+		case "embl":
+			fmt.Fprintf(&buf, "ID   %s; SV 1; linear; genomic DNA; STD; PLN; %d BP.\nXX\nDE   test entry %d\nXX\nOS   Homo sapiens\n", rec.id, slen, i)
+			fmt.Fprintf(&buf, "FH   Key             Location/Qualifiers\nFH\nFT   source          1..%d\nFT                   /db_xref=\"taxon:%d\"\nXX\nSQ   Sequence %d BP;\n", slen, 9606+i, slen)
+			for o := 0; o < slen; o += 60 {
+				e := o + 60
+				if e > slen {
+					e = slen
+				}
+				fmt.Fprintf(&buf, "     %-65s %9d\n", c17tenmers(rec.seq[o:e]), e)
+			}
+			buf.WriteString("//\n")
+		case "genbank":
+			fmt.Fprintf(&buf, "LOCUS       %-16s %11d bp    DNA     linear   PLN 01-JAN-2000\n", rec.id, slen)
+			fmt.Fprintf(&buf, "DEFINITION  test entry %d.\nACCESSION   %s\nSOURCE      Homo sapiens\nFEATURES             Location/Qualifiers\n     source          1..%d\n                     /db_xref=\"taxon:%d\"\nORIGIN\n", i, rec.id, slen, 9606+i)
+			for o := 0; o < slen; o += 60 {
+				e := o + 60
+				if e > slen {
+					e = slen
+				}
+				fmt.Fprintf(&buf, "%9d %s\n", o+1, c17tenmers(rec.seq[o:e]))
+			}
+			buf.WriteString("//\n")
+		case "csv":
+			fmt.Fprintf(&buf, "%s,%d,%s\n", rec.id, i+1, rec.seq)
+		case "ecopcr":
+			f := []string{rec.id, "  1500", fmt.Sprintf("  %d", 9606+i), "species", fmt.Sprint(9606 + i), "Homo sapiens", "9605", "Homo",
+				"9604", "Hominidae", "2759", "Eukaryota", "D", "GGGCAATCCTGAGCCAA", " 0", "54.2", "GATAGGTGCAGAGACTCAATGG", " 0", "60.1",
+				fmt.Sprintf("  %d", slen), strings.ToUpper(rec.seq), fmt.Sprintf("def %d", i)}
+			buf.WriteString(strings.Join(f, " | ") + "\n")
 		}
 		recs = append(recs, rec)
 	}
-	return &c17base{Name: name, Fmt: fm, Plain: buf.Bytes(), N: nrec, Want: c17digestRecs(recs), Large: large}
+	return &c17base{Name: name, Fmt: fm, Plain: buf.Bytes(), N: nrec, Want: c17digestRecs(recs), Recs: recs, Large: large, Split: split}
 }
 
 func c17compress(codec string, plain []byte) []byte {
@@ -183,16 +293,185 @@ func c17compress(codec string, plain []byte) []byte {
 	return buf.Bytes()
 }
 
+// c17codecOf: "gz", "gz.tool", "gz.2m" -> "gz".
+func c17codecOf(codec string) string {
+	if i := strings.IndexByte(codec, '.'); i >= 0 {
+		return codec[:i]
+	}
+	return codec
+}
+
+// c17image builds the compressed image of a base file.
+//
+//	<codec>        one member / frame / stream written by the Go encoder (compress/gzip, dsnet/bzip2, ulikunitz/xz,
+//	               klauspost/zstd)
+//	<codec>.tool   the same plain bytes compressed by the usual command line tools (gzip 1.12 -6 = zlib deflate,
+//	               bzip2 1.0.8 -9, xz 5.8.2 -6, zstd 1.5.7 -3), embedded below: the bit streams that users really feed
+//	               to the commands differ from those of the Go encoders (block types, check type, frame
+//	               header options) and drive the decoders through other paths
+//	<codec>.2m     two members / frames / streams concatenated (cat a.gz b.gz), cut at a record boundary
+//
+// The second result is the offset of the second member (0 when there is one member only).
+func c17image(b *c17base, codec string) ([]byte, int) {
+	switch {
+	case strings.HasSuffix(codec, ".tool"):
+		s, ok := c17toolImagesB64[b.Name+"."+c17codecOf(codec)]
+		if !ok {
+			panic("c17: no embedded image for " + b.Name + "." + codec)
+		}
+		img, err := base64.StdEncoding.DecodeString(s)
+		if err != nil {
+			panic(err)
+		}
+		return img, 0
+	case strings.HasSuffix(codec, ".2m"):
+		if b.Split <= 0 || b.Split >= len(b.Plain) {
+			panic("c17: base " + b.Name + " cannot be split")
+		}
+		m1 := c17compress(c17codecOf(codec), b.Plain[:b.Split])
+		m2 := c17compress(c17codecOf(codec), b.Plain[b.Split:])
+		return append(append([]byte{}, m1...), m2...), len(m1)
+	}
+	return c17compress(codec, b.Plain), 0
+}
+
+// c17region names where a fault falls in the image (keys): head / body / tail of the (first or second) member.
+func c17region(total, boundary, bytePos int) string {
+	pre := ""
+	lo, hi := 0, total
+	if boundary > 0 {
+		if bytePos < boundary {
+			pre, hi = "member1-", boundary
+		} else {
+			pre, lo = "member2-", boundary
+		}
+	}
+	switch {
+	case bytePos-lo < 32:
+		return pre + "head"
+	case hi-bytePos <= 32:
+		return pre + "tail"
+	}
+	return pre + "body"
+}
+
+var c17magic = map[string][]byte{"gz": {0x1f, 0x8b}, "zst": {0x28, 0xb5, 0x2f, 0xfd}, "xz": {0xfd, 0x37, 0x7a, 0x58, 0x5a, 0x00}, "bz2": {0x42, 0x5a, 0x68}}
+
+// c17minLen: Buf tests the magic numbers in the order gzip (2 bytes), zstd (4), xz (6), bzip2 (3) and takes a
+// file too short for one of these tests as an uncompressed file: a bzip2 file needs 6 bytes to be recognised.
+var c17minLen = map[string]int{"gz": 2, "zst": 4, "xz": 6, "bz2": 6}
+
+// c17hasMagic: does Buf still see a compressed file of this kind (labels only)?
+func c17hasMagic(codec string, data []byte) bool {
+	m, ok := c17magic[c17codecOf(codec)]
+	return !ok || (bytes.HasPrefix(data, m) && len(data) >= c17minLen[c17codecOf(codec)])
+}
+
+var c17library = map[string]string{"gz": "pgzip+klauspost-flate", "bz2": "dsnet-bzip2", "xz": "ulikunitz-xz", "zst": "klauspost-zstd", "plain": "none"}
+
+// images of fa300 and fq2k written by gzip / bzip2 / xz / zstd (see c17image); checked against the plain bytes
+// by the intact control cases
+var c17toolImagesB64 = map[string]string{
+	"fa300.gz": "" +
+		"H4sIAAAAAAAAA0WPSw6CQBBE930KwwkATUxccJdOJfZON+3KcHdfDSEGGPpXr2s2LfdnznNUZ0nNWU0gJf8UcdEgaLlAyuty8pQF" +
+		"3bEdlOXynfT+vHp6rHsAGLLUGGc6TbcKjaU0oLRAQ3aOxNvqJK7R1JFllz90Xph2A3yEtuKmOawxgqYFJ+X693XbQ0PCfs/B0bHB" +
+		"90qn8jVttc1lQvZrW5nxAxtunW4wAQAA",
+	"fa300.bz2": "" +
+		"QlpoOTFBWSZTWTEiRAgAABHZgEAQUAB8kSmBhgowANqA1PNVPUAAAo0ZA0aZGglU/0SiNTT1Mam04459HRv48fux0a9wdwfS9g/j" +
+		"gNuQe26jwxERAKCkTJCWHW9JVc6EDtIu0oozIDtlcRiOLJFhJGNbe45mELZIvIMq4LJVg3RGrJSVSkka1kIm2ZmMlL0JPhrVSjrB" +
+		"S2Ek0stLapCS0XZi2K4xSadHw/+vou5IpwoSBiRIgQA=",
+	"fa300.xz": "" +
+		"/Td6WFoAAATm1rRGBMCzAbACIQEWAAAAAAAAADh/FhTgAS8Aq10AHxjCI3Kfa+f9uRyZt06mtFNatZCsOS1SHnqlgF8PnsdJ0OMA" +
+		"YD/+gaL01miycT831amPwxwBXCY0oqvFXMMt1Fn0hz83YT/NiguULrdibe0VG6qUQlbouk9+L8+ltw47McwgSnxIWsyDrvtErl3z" +
+		"zh5G8d/ogFlHOpJovtqH5ZxarXsawmJTMlIMd4E7hs92eAw7BsyRHxILPE/JSmL6Z3r0UBeOGH5Va7IAAAD/HR2s/8y+HgABzwGw" +
+		"AgAA+Mt9ALHEZ/sCAAAAAARZWg==",
+	"fa300.zst": "" +
+		"KLUv/QRYVQQAQk4ZFZApGQ6r+KX4nWRmq6myqMFOyLgTOiNJ5lOtluNlxzQ7k6eRCADwbFL30ZLFsu/RY34fCJPJ1hvtTrk+P1k0" +
+		"x1I2I4EYKDZAOKhIKBzG57OUPNOM25eMeXFT5Zovs8NgSIHAIYIMAC4TvwxDll7f2GZJlOuGC1yT33FZq0BFqmu1NmAkbogC0wtz" +
+		"7w==",
+	"fq2k.gz": "" +
+		"H4sIAAAAAAAAAz2V2Y6DOBBF3/MbYLOE3SwGY2PM/hkIaXgeif/XuIr0pJUEsOncU3Xroq+8+effLPtc1/08z3nf53Wez33Z4+e+" +
+		"L/t3Xs9pL9oNt712wZbbXrjPB0/sfdcDHxce2zvtVrt63pfdjf/Ofn6+n9VP1mKUe0hoN7ZHMXr7JvxUj4W79/EaOFU9LXzZ+FCX" +
+		"x6Zz6ZPIhE4UN1OwRo43cGUKwefoSxv368alqSNvCr7jrk1Lt49+UfIP/P5lfxz0g7QTddkze4qqLCnI+61agfbECr9w7YIyABse" +
+		"AYyFtKS4amvxAIo2JPSbqObtLohX6HWmhzl0vnjUn/JiNImzxqNHRbeK9siV7E3erkMioz50DlrmbaC2NVD72MdLqCovKtLqiAdH" +
+		"RiTTfyjF58KKQwes+hPATtD5YK9O6INdexWiVKg8qEVIuw9bAeIf4IX3rxLvLkDpBy0rNnbjWkbtGgiyL0rV8cgObcTskojyLquG" +
+		"dO53kedSD0Zk0qiDJ8U81tRPltVfEpmPcmLNFFGPb4x2xHcP6Vf5Hwr7WJG2qFhSkAYVP0EzWAirfIJG2xKr63mddKMf8TL0yr7s" +
+		"Vmzh/SA5tuSBPYiyf3XjbyUZw0XUjux4ui6N6ZbUU4lYnZA7edbPDvV0bOKC1nUSbe5c+dkuQ9KpqdGGrr3rNqQyqvB3Fs4ToZ63" +
+		"DVvC/kcpwWAwFTea3FK9dT6xwFj5+3rrDsAAh15Dc0GfcMZen4H+EyCht+c7SDeibCOra09++37nZvruZReX1IpStHGifFOqi3Ug" +
+		"lXbbNpJsIn7Wjo2fsG6eqyD1C8q+26JDN1F06/ejruMonsYi/AriRn8o1edElScWFObbCkNpeIa2Ayb0PXQAPIhyUfhLhkRwJ25+" +
+		"XXheLzagRDyWEw1CwxZf607w2nbJ0XGxqoyXiXv4Mjnqr02C3ol1U+3l7DgzC5M0y0IlOn1EIlqCKOcL56JpI3dqg67vnEblpv5D" +
+		"qT/gbBxkeJ3o8F+hcU5A/AsCdX+uN56eE1HfUIBruAlHBIsBgNCvFyVodSzyjNPNLFIeOjMD/y5f5ZpcDWravIWlvonTyOljImVQ" +
+		"M0L45FLqy3lWUd20cyXmgCfzvtX9zOfCmHZXYzexjcZ/KM3nxvnAwL0xjU/MAchYNP67BkMPnvnZDdMaYwGCGdPhNR18QxWAF7gw" +
+		"wVSYNUu4tYLrjNLda6gQTBIRB04+z2khwyJYTZlsuq9SUgQ2m4xTdF2T5O38tTHlMdov3JUD4zxc+1k2Mgu6rqvTfvg/jLmdlXeS" +
+		"IY+hAxeO+onxiqMM0w4IJ5oKpgj7h0MP3nrb9WC24RMJEwRuhqoAijHxsgieMXmILnXylaRM0yVMB/fLdNiucx4qnbVbLTY5GseN" +
+		"D9Y20xLsx17KpSnWTFfV0OR7HKZhkLNORLlijl+Rfmd/KO0HtP0C6yf8zTR4nz95wHG/S38PkteNJ+q9MMru98l0vhMFrLAFUDoz" +
+		"6bwYmq9XztO4j/5BxX50cgycICbpFnlhSAIWMJLqZiCLJjJMTZ0x7WamVhlphqMnck4Ga9PAE57OTambssuzrp8+/wGWf4dE7gcA" +
+		"AA==",
+	"fq2k.bz2": "" +
+		"QlpoOTFBWSZTWSkU62gAAaBdgHAQD//////gKYAkAFAE+mUqkKbwAACqn4QyaaZAYCnk0aKm9UAKp4TEwTSeU8IYmlT2KQwganoq" +
+		"NGjE0B6jRsmiMh6IDAGmho0YjIBoANDBqfipKRTCYAAAAAP2RGRQfSWFiIqhCoVF844dBxc3P25hgkrsfCR9kJvfQpun+qF8xsre" +
+		"Lu/1HYqeIwU9N1WmLCodPVRYrL7blgMuxCLxK00jO3fuf35uZ8n65HPi6P36t7/4GMr24GYUme0KHm2/19Dy2aDP7w5jeZNkTkuS" +
+		"9xH4yQVq148ao2eYal4MBwSxbYrOxdmtmpWwqiEtK68GoxS/U0Neo1gvUTz1bGW5fsHgHPEaD2TAq0HQ4z2QOCx1E4rbjwOD9k80" +
+		"SpN/nKOCMzoC/c6j2aksHIMdaQpE4tfTNO5d7poYoE6u6P6vlbZVOnlGwAs2k6dPpxP9yHwdQgeggUE6BLSQF11ngWUGvxAywj8z" +
+		"9B9A4i+d2llCPsWgQbeMvxtMoGvsKbD4nxUBt0yTXPKTOkCQbrlT9vfnPCrQP/fFZJUZ0Jcm8umEZRRkiukwdjz3pgZ80rVYzdL7" +
+		"BKDyOXzq5nAIAufmm0FXLyChqhUIDXRziNldWPx5/QPAA+yihlPTVzjBVi6SU6mu4W+aNF0hhvDOjH4mNAUSOU2l4c3wMPQFg/DX" +
+		"WEyuqV5ew454c1TtNsl42vim0Qm+b56t2Ajrvkjil06dnalpe4kiixDZVhKmmCisllrv30Ji1WvPGlc3bOpE2XQ2s2s1houI2Rnp" +
+		"VgAiZsJJI8sq8B2golXOF/Ay676c8B1wlC1YshC46wVd13hYM8Z0xZmEzmcEdtHF8fsH0BA7L+sdU3csO5h6IQG3fDqCQdrVxbPt" +
+		"VXZAjCTE0qP3EqI8Spu4laI4yaGZEwiWaD8Fiztwb5sRgOrCFO4I94YQ0RUa5T8WujjvwXms+XcOqzVsaO/d9ooF8HKB/CbuFmG2" +
+		"8Rg9jmMF3nyTLSbRMzZIjrXGu9tsuhTmaabr/CKPjBXCe2/dRLvdCmd+ygXNbSeXWVO76r9EY4oIhVJCEiGsEjwf7693aNmaoLBl" +
+		"zl0Oc399ie/q8K8Xw8UqMbyz1PB8/w8Lq4bmCtVVZZKilhTL6iDHfT1enmweB44kxyxlQzjag3oW2sd+Lcxd6UxCtq3oa6O7rZAd" +
+		"Xe8uEp3Bw084XGGHM85ZMY5GZeELPToYx06sVpmeAUiQpQqEROqJQI5Tk0cdFEbt0xGF7xiVXQxOKMN/W5u83e9rTmXOdB63p3s2" +
+		"lNO1cG0rZcWGyCaFMgh6V3dCs1lted1o7huZxOM5wZXDwaXXMpc62uesvO5R0uNcaac4wVV49NjXfTqdV7hJ2P93Nc52ynRnM62M" +
+		"uVOWOLmhTAUAE0XGW9ienXSI5myui1OVPUc6dXqYkzOl9b53w0B5jGm5uyRndNqkeKIUxWI5i4cjOx/wu5IpwoSBSKdbQA==",
+	"fq2k.xz": "" +
+		"/Td6WFoAAATm1rRGBMCRCe4PIQEWAAAAAAAAADXUwXzgB+0EiV0AIBjCI3NspbnzK0MPyk2KsAm+sAfwCnczPlXCVNoOW6lUiaLu" +
+		"DWgmeElZ2AlQSpO56FjDpediLKfKqxd8WT9eIKgFO0UrLiAxQnFV4G3vjtrp0jTndPz73/LNIeW0oR58nnG1ISCqgO3YI3IL3wZW" +
+		"k4XSoCYRUFNwYD6gYPKfQzkUPL4sq1DssvpzhLbP4p7aFrERi7AlgKN4VS5vHxo+5j3825J+rXT8MU+HGqREkA6xYz00OcGHI1q8" +
+		"q2KH6POv0yLswxrlSAqvYXZ9ERO+/cHyHuPx5Xrh1xjq2inE2rGbH+eSN1YmewXhEZ+QYlktMpUUyicQKGIL7krQdbNibebBqUrP" +
+		"SWqUYPWSrMFGnOe8uZox4wSt+GGWIPxjqHE8Coc2RQAGJO9dEdRqzq228Q+djwr1s2Omm2iaj6zHHTi5KRPoaBBYN7GWXxz2c+iO" +
+		"2lYx10AQk3aEUJcAx+SFaqt7U60V627fFVkwKq2NmZhFpl+YdPoaWnJVxl0l5DVxenY45uofj+fAw5BUpUlqPehYBAsllNCCidTS" +
+		"At5ZkfPiUH19pi3pdJ04mbjj27OatiFmNyF/IYusd1e3pucdbDi1dYFR7PWyVOdmw0j5mHAWYWwNr+isZuZPcKAVSs3lh/KZ1MSK" +
+		"HodRvkf36dJcT0bV/YrpQZxHkop9sPVjaXbS4kwqp3a0Q8ioaET+LcgBg4+nde6lUUDtmL5Z5NFhva9NINVrHbCCKERv4ofbsMYI" +
+		"DfWj1k0+akl4ZiJyXLVOqy2r6UjHq4fzMB0f3+Zk1hgn0kxLM0Kk1J9cArc6QMnr5J9oformGnXg58FGqEh0o8acDbSNQkma/8o8" +
+		"nCUUnz7BMnV8S/j+DKEaJwiOcY0TyWZKEPPCLC76X/lnZEbtwFBikiWVgm0FXZJ9/+o95sU+mnWl1ge/+z2+mPj5YpOEq4vnLSWa" +
+		"952wanGv1UjN3PlXD9qTV+/DNHf1vC32xPezAaj+Yoz0TpnJedWH7KiGfK8APY1ESyY63gmZDi2KtO9daSkHa/DYsjX9iYvuGAVj" +
+		"HBHxOJmA0SnAx1HuQEh/dTlGxgSLmnwoD80ov/sNYMl0hogpHUD+18L0DWBP994Pqi0WiWsmgHI6iYIwLBIErGvZIjvS8fnaflvN" +
+		"C7GPMkcdtsIFGRdc4a2WpbNexp/gFcsGE98+Kgl/6KwarThcXIu/zdhrXT8mQMiig5KrHfp8WXtqfoaSyfZ3YfjBlQAo6FfBQ+2H" +
+		"yVJzC7Dm/i+NYtj83ZY4BxnEH8MfWe8VKXADd6uyy5Uc3oscTFD1PKpyYlbQzDHNTMKSuhScOsIsYdW/i/jR/sJsNV1oHs8yovDU" +
+		"MBkZHqi1XagCvn4q8ntZVWy5pweqMfBPEPvqR9viwlWSGw/oym4jrz0ap8XcCQbanyY560iUFHfqOcGXI3MoAJ9bbXUozuTCJMOX" +
+		"z6hwB6lbvjosUUx4bGsJ7ycyYWW+i9hVCKVCyAcSotjKTRHotf/eUYaGRFElHTVRAw9OlwG211kuhPrPywtsPc5qpZmxxBzm6oAA" +
+		"AAAAADfM/uKVXqdkAAGtCe4PAACqxTtWscRn+wIAAAAABFla",
+	"fq2k.zst": "" +
+		"KLUv/QRYrSUAmlWsDhxARXgD4Hz3MJ2Kku4m6VZcVSvbmZmtXouiw04E2ADeAOkACfFYx6ZUmGcZXGcZkwzETziqpC4XN8lbVUt+" +
+		"E+UoGglM4YTlYo7Mikhs0n73ixpnHQJSb5KgJCoOeC0XIMF/M/e7czd//zN/e7d/OzN3O/O/d7v7s/d3u/9zd3dzIIMuTtd6GGJk" +
+		"RALdgDIgQxSRRJOocy3pIoSEM7JISYTjJrCo0nZfALqkbpO2DHoEg1Mqb3AwyxS08wjM+SaMivDwKuZwS8EFSMDe/dzO7N3N3/7e" +
+		"7t3v/f3ez97Mzu7cz+/ezc38zd7e7s//7c/c7M7/791B0wQARLJtSHYlr6qQSkDQxDqPC5DAuZ2Zn5v/35u/v//7nf/dm4PAXLqr" +
+		"I4gIM+2YXuFY94HRMFRcvDbKLAoe1WuKRxu6ZIGg6ChXsUQUtKqRgnQIHF0sgtmoG20cI1FVgOh2YDDQFZFFvGduf//2du/v/u9u" +
+		"52d2bv5n/3bv93/nDqZ8ivoNBaTi7CQiJlk0s4rJumwFty1FhDDNWaTPurWh97JVSupVGnM9DSXFBA4avfabmAJZ1uZBanBTEuAw" +
+		"CptPtVfFBUjQ793v7t39zczO/N7N7O78zR04toFJFS7lexgn397N7tz/38//7t3P7kGkxG5mFGZ5072OJmkV1HnaIhkafbQpghJL" +
+		"02oR45BJEE7IqBUqlZAwyi2YuRFdZl2WvIOFbIh03cZ+tW63i1IjqWInw93bm9/7m//Z3f39PYCgK61IoCrKmLIhmSIqSZskE2NL" +
+		"aPJZilpH0zDLMTVB0ALeE1lFqCxTINC31OIbloDUWJyjWKGILCRRytpim/cwYlYVKXHu5mf2/+5uZ3fm4EkGSJHDwTIlUSDo86ou" +
+		"Wstw2K1DZnQKxng0jZpLEWFTU8Bs1mSaBmtVwyqUZXUyEaJoFY4VAwoV8AJBVlGNpAKRDVxpCUoYjaTXolVYfVcEGwu6zWBnA13m" +
+		"qNBu8IosA6cxDXgcRNIxUDEEA6vU59H4FZiHZVqAQKLLkTa7FDt7c/+7cwfT9Cr4FMK0ZEKpKY2DORRPRtfz2IZzoq0GvM8ztiya" +
+		"5qcMwsVqR6Fuaqx1SI2bDjuR4WKOLdrJQE4KDEW/OhuJbptyLxcgQX9397s3N7f/+3dzN/dzv3MgdVfFQBRFGU2NqlZxhyTNqw7S" +
+		"VsVJwKQi2iSXiKIc4QqXYjiQeSrbLYHLGc5RHUbTpGAoFNZJaYwIL8bGSnTqji1qDqufOXioMaGDypCMTJCCgqKSDiACQoghB/UQ" +
+		"urYN+gd42lWFdto6w864SH8m67uwvWUmPh/5GtgcyPCqqq34Mn9Iq9qolAnEBNf1c9LDguvcryNXOF+4AzxUjENGrlAvBKrBjK0Z" +
+		"cmz5IH7kAkRkg65gpD16yHd+iJr8Id5F7t6NSZ9KsGbISmK2SLlz5qPIQzOP9+GQW1qVuFvI+9HGfeegw4c8qKRMdVOEGp0tmSIt" +
+		"QxiVsweG4U1hTPos2f/aiS7MqGE73jmpMvQT4wN+psEkvNou2Th6K7FE56t0bEhlECEMOYJCh+uLUuPVQBzXVWY6ww+T1z39jjNw" +
+		"yfjc0NF0hkpJmRpK8QN3S0Hl",
+}
+
 // ------------------------------------------------------------------------------------------ case
 
 type c17case struct {
 	Base    string `json:"base"`
 	Codec   string `json:"codec"`
-	Driver  string `json:"driver"`            // file | reader | stdin
-	Fault   string `json:"fault"`             // trunc | flip | rderr | none
-	Pos     int    `json:"pos"`               // truncation length / bit index / bytes delivered before the error
+	Driver  string `json:"driver"`             // file | fileimp | reader | readerimp | stdin
+	Fault   string `json:"fault"`              // trunc | flip | rderr | none
+	Pos     int    `json:"pos"`                // truncation length / bit index / bytes delivered before the error
 	ErrKind string `json:"err_kind,omitempty"` // EIO | UEOF (rderr)
-	Bin     bool   `json:"bin,omitempty"`     // also run the obiconvert binary on the faulted file
+	Bin     bool   `json:"bin,omitempty"`      // also run the obiconvert binary on the faulted file
+	Cli     bool   `json:"cli,omitempty"`      // also run the command-level variants (options, several files, paired, obiuniq)
 }
 
 // c17cutName names the cut point of a truncation for the keys of the "accepted although truncated"
@@ -218,7 +497,8 @@ var c17faultName = map[string]string{"trunc": "truncation", "flip": "bitflip", "
 
 type c17req struct {
 	Seq     int    `json:"seq"`
-	Mode    string `json:"mode"` // file | reader | probe
+	Mode    string `json:"mode"` // file | fileimp | reader | readerimp | probe
+	Fmt     string `json:"fmt"`  // format of the base file (imposed-format modes)
 	Path    string `json:"path"`
 	K       int    `json:"k"` // reader/probe: bytes delivered before the error; <0: no fault
 	ErrKind string `json:"err_kind"`
@@ -306,6 +586,55 @@ func c17readFromReader(rd io.Reader, options ...WithOption) (obiiter.IBioSequenc
 		log.Fatalf("File has guessed format %s which is not yet implemented", mime.String())
 	}
 	return obiiter.NilIBioSequence, nil
+}
+
+// c17readFromReaderImposed: what ReadFastaFromFile / ReadFastqFromFile / ReadEMBLFromFile / ReadGenbankFromFile /
+// ReadCSVFromFile do after `Ropen(filename)` (= Buf over the opened file): the format is imposed, no MIME sniffing.
+// (ReadEcoPCR over Buf is what ReadSequencesFromFile composes too; ReadEcoPCRFromFile itself is driven by file name.)
+func c17readFromReaderImposed(format string, rd io.Reader, options ...WithOption) (obiiter.IBioSequence, error) {
+	options = append(options, OptionsSource("c17reader"))
+	file, err := Buf(rd)
+	if err == ErrNoContent {
+		return ReadEmptyFile(options...)
+	}
+	if err != nil {
+		return obiiter.NilIBioSequence, err
+	}
+	switch format {
+	case "fasta":
+		return ReadFasta(file, options...)
+	case "fastq":
+		return ReadFastq(file, options...)
+	case "embl":
+		return ReadEMBL(file, options...)
+	case "genbank":
+		return ReadGenbank(file, options...)
+	case "csv":
+		return ReadCSV(file, options...)
+	case "ecopcr":
+		return ReadEcoPCR(file, options...)
+	}
+	panic("c17: no imposed reader for " + format)
+}
+
+// c17readFileImposed: the reader that --fasta / --fastq / --embl / --genbank / --ecopcr select in
+// CLIReadBioSequences (ReadCSVFromFile has no option but is an exported entry point).
+func c17readFileImposed(format, path string, options ...WithOption) (obiiter.IBioSequence, error) {
+	switch format {
+	case "fasta":
+		return ReadFastaFromFile(path, options...)
+	case "fastq":
+		return ReadFastqFromFile(path, options...)
+	case "embl":
+		return ReadEMBLFromFile(path, options...)
+	case "genbank":
+		return ReadGenbankFromFile(path, options...)
+	case "csv":
+		return ReadCSVFromFile(path, options...)
+	case "ecopcr":
+		return ReadEcoPCRFromFile(path, options...)
+	}
+	panic("c17: no imposed reader for " + format)
 }
 
 // ---- exit interception (child)
@@ -399,7 +728,7 @@ func c17exec(req c17req) c17resp {
 		return resp
 	}
 	var data []byte
-	if req.Mode == "reader" {
+	if req.Mode == "reader" || req.Mode == "readerimp" {
 		data = c17load(req.Path)
 	}
 	st := &c17state{exitCh: make(chan struct{}), done: make(chan struct{})}
@@ -422,14 +751,12 @@ func c17exec(req c17req) c17resp {
 		case "file":
 			it, err = ReadSequencesFromFile(req.Path, OptionsParallelWorkers(2))
 		case "fileimp":
-			// format imposed by the user (--fasta / --fastq): the MIME sniffer is not on the path
-			if strings.Contains(req.Path, ".fastq.") {
-				it, err = ReadFastqFromFile(req.Path, OptionsParallelWorkers(2))
-			} else {
-				it, err = ReadFastaFromFile(req.Path, OptionsParallelWorkers(2))
-			}
+			// format imposed by the user (--fasta / --fastq / --embl ...): the MIME sniffer is not on the path
+			it, err = c17readFileImposed(req.Fmt, req.Path, OptionsParallelWorkers(2))
 		case "reader":
 			it, err = c17readFromReader(c17newFaultReader(data, req.K, req.ErrKind), OptionsParallelWorkers(2))
+		case "readerimp":
+			it, err = c17readFromReaderImposed(req.Fmt, c17newFaultReader(data, req.K, req.ErrKind), OptionsParallelWorkers(2))
 		default:
 			panic("c17: bad mode " + req.Mode)
 		}
@@ -459,7 +786,7 @@ func c17exec(req c17req) c17resp {
 					}
 					q = string(qb)
 				}
-				o.lines = append(o.lines, fmt.Sprintf("%s\x00%s\x00%s\n", s.Id(), string(s.Sequence()), q))
+				o.lines = append(o.lines, fmt.Sprintf("%s\x00%s\x00%s\n", s.Id(), strings.ToLower(string(s.Sequence())), q))
 				n++
 			}
 			got = append(got, o)
@@ -773,9 +1100,9 @@ func c17repoRoot() (string, error) {
 	return root, nil
 }
 
-// c17buildBinary builds obiconvert from the tree under test into dir, once for all shards.
-func c17buildBinary(dir string) (string, error) {
-	bin := filepath.Join(dir, "c17-obiconvert")
+// c17buildBinary builds a command (obiconvert, obiuniq) from the tree under test into dir, once for all shards.
+func c17buildBinary(dir, name string) (string, error) {
+	bin := filepath.Join(dir, "c17-"+name)
 	failed := bin + ".failed"
 	lock := bin + ".lock"
 	if _, err := os.Stat(bin); err == nil {
@@ -790,7 +1117,7 @@ func c17buildBinary(dir string) (string, error) {
 			return "", err
 		}
 		tmp := fmt.Sprintf("%s.tmp%d", bin, os.Getpid())
-		cmd := exec.Command("go", "build", "-o", tmp, "./cmd/obitools/obiconvert")
+		cmd := exec.Command("go", "build", "-o", tmp, "./cmd/obitools/"+name)
 		cmd.Dir = root
 		env := os.Environ()
 		for _, kv := range []string{"GOFLAGS=-mod=mod", "GOPROXY=off", "GOSUMDB=off", "GOTOOLCHAIN=local", "GOWORK=off"} {
@@ -801,7 +1128,7 @@ func c17buildBinary(dir string) (string, error) {
 		cmd.Env = env
 		out, err := cmd.CombinedOutput()
 		if err != nil {
-			msg := fmt.Sprintf("go build obiconvert failed: %v\n%s", err, out)
+			msg := fmt.Sprintf("go build %s failed: %v\n%s", name, err, out)
 			os.WriteFile(failed, []byte(msg), 0o644)
 			return "", errors.New(msg)
 		}
@@ -820,11 +1147,16 @@ func c17buildBinary(dir string) (string, error) {
 		}
 		time.Sleep(100 * time.Millisecond)
 	}
-	return "", errors.New("c17: timed out waiting for the obiconvert binary")
+	return "", errors.New("c17: timed out waiting for the " + name + " binary")
 }
 
 // c17parseOut reads obiconvert's FASTA / FASTQ output into (count, digest).
 func c17parseOut(out []byte) (int, string) {
+	recs := c17parseRecs(out)
+	return len(recs), c17digestRecs(recs)
+}
+
+func c17parseRecs(out []byte) []c17rec {
 	lines := strings.Split(string(out), "\n")
 	var recs []c17rec
 	i := 0
@@ -832,7 +1164,7 @@ func c17parseOut(out []byte) (int, string) {
 		i++
 	}
 	if i >= len(lines) {
-		return 0, c17digestRecs(nil)
+		return nil
 	}
 	idOf := func(h string) string {
 		h = h[1:]
@@ -866,7 +1198,7 @@ func c17parseOut(out []byte) (int, string) {
 			}
 		}
 	}
-	return len(recs), c17digestRecs(recs)
+	return recs
 }
 
 type c17binres struct {
@@ -885,19 +1217,34 @@ func c17runBinary(bin, path string, stdin bool, want string) c17binres {
 }
 
 func c17runBinaryTO(bin, path string, stdin bool, want string, to time.Duration) c17binres {
+	if stdin {
+		res, _ := c17runCmdTO(bin, nil, path, want, to)
+		return res
+	}
+	res, _ := c17runCmdTO(bin, []string{path}, "", want, to)
+	return res
+}
+
+// c17runCmd runs a command of the tree on files; the raw standard output is returned too.
+func c17runCmd(bin string, args []string, stdinPath string, want string) (c17binres, []byte) {
+	res, out := c17runCmdTO(bin, args, stdinPath, want, 90*time.Second)
+	if res.exit == -2 {
+		res, out = c17runCmdTO(bin, args, stdinPath, want, 360*time.Second)
+	}
+	return res, out
+}
+
+func c17runCmdTO(bin string, args []string, stdinPath string, want string, to time.Duration) (c17binres, []byte) {
 	ctx, cancel := context.WithTimeout(context.Background(), to)
 	defer cancel()
-	var cmd *exec.Cmd
-	if stdin {
-		cmd = exec.CommandContext(ctx, bin)
-		f, err := os.Open(path)
+	cmd := exec.CommandContext(ctx, bin, args...)
+	if stdinPath != "" {
+		f, err := os.Open(stdinPath)
 		if err != nil {
 			panic(err)
 		}
 		defer f.Close()
 		cmd.Stdin = f
-	} else {
-		cmd = exec.CommandContext(ctx, bin, path)
 	}
 	var so bytes.Buffer
 	tail := &c17tail{}
@@ -908,7 +1255,7 @@ func c17runBinaryTO(bin, path string, stdin bool, want string, to time.Duration)
 	if ctx.Err() != nil {
 		res.exit = -2
 		res.msg = "timeout"
-		return res
+		return res, nil
 	}
 	if err != nil {
 		var ee *exec.ExitError
@@ -929,7 +1276,7 @@ func c17runBinaryTO(bin, path string, stdin bool, want string, to time.Duration)
 		n, d := c17parseOut(so.Bytes())
 		res.nrec, res.equal = n, d == want
 	}
-	return res
+	return res, so.Bytes()
 }
 
 // c17gzClass labels a faulted gzip file with an independent decoder (compress/gzip), for keys of the stdin
@@ -1045,7 +1392,11 @@ func TestVerifC17(t *testing.T) {
 		}
 	}()
 
-	bin, err := c17buildBinary(work)
+	bin, err := c17buildBinary(work, "obiconvert")
+	if err != nil {
+		t.Fatal(err)
+	}
+	binUniq, err := c17buildBinary(work, "obiuniq")
 	if err != nil {
 		t.Fatal(err)
 	}
@@ -1066,13 +1417,45 @@ func TestVerifC17(t *testing.T) {
 	if thorough {
 		baseNames = []string{"fa300", "fa1m2", "fq2k", "fq300"}
 	}
+	// bases of the other formats (EMBL, GenBank, CSV, ecoPCR) and the record longer than a chunk
+	fmtBases := []string{"em400", "gb400", "cs200", "ec700"}
+	fmtCodecs := []string{"gz"}
+	longCodecs := []string{"zst"}
+	multiBases := []string{"fa300"}
+	if thorough {
+		fmtCodecs = codecs
+		longCodecs = codecs
+		multiBases = []string{"fa300", "fq2k"}
+	}
+	toolBases := []string{"fa300", "fq2k"}
+	restricted := map[string]bool{}
 	if bs := os.Getenv("VERIF_C17_BASES"); bs != "" { // debugging knob: restrict the base files
-		baseNames = strings.Split(bs, ",")
+		for _, n := range strings.Split(bs, ",") {
+			restricted[n] = true
+		}
 		r.Cap("base files restricted by VERIF_C17_BASES=" + bs)
 	}
+	keep := func(l []string) []string {
+		if len(restricted) == 0 {
+			return l
+		}
+		var out []string
+		for _, n := range l {
+			if restricted[n] {
+				out = append(out, n)
+			}
+		}
+		return out
+	}
+	baseNames, fmtBases, multiBases, toolBases = keep(baseNames), keep(fmtBases), keep(multiBases), keep(toolBases)
+	longBases := keep([]string{"fa1rec"})
 	r.Bound("codecs", codecs)
 	r.Bound("base_files", baseNames)
-	r.Bound("binary_subset", fmt.Sprintf("1 in %d of the file-driver cases (hash of the case index); stdin driver: all", binRate))
+	r.Bound("base_files_other_formats", map[string]any{"bases": fmtBases, "codecs": fmtCodecs})
+	r.Bound("base_files_tool_images", map[string]any{"bases": toolBases, "codecs": "gz.tool bz2.tool xz.tool zst.tool (gzip 1.12 -6, bzip2 1.0.8 -9, xz 5.8.2 -6, zstd 1.5.7 -3)"})
+	r.Bound("base_files_two_members", map[string]any{"bases": multiBases, "codecs": "gz.2m bz2.2m xz.2m zst.2m"})
+	r.Bound("base_file_long_record", map[string]any{"bases": longBases, "codecs": longCodecs})
+	r.Bound("binary_subset", fmt.Sprintf("1 in %d of the file-driver cases (hash of the case index); stdin driver: all; command-level variants: every truncation of the selected images + 1 in %d of their bit flips", binRate, binRate))
 	r.Bound("large_file_positions", "fa1m2 (sampled): truncation at every length in the first and last 2 KiB of the compressed image and every 4 KiB in between; read errors in the first and last 256 B and every 4 KiB; no bit flips")
 
 	// ---- failure of the harness itself (never a verdict)
@@ -1095,6 +1478,7 @@ func TestVerifC17(t *testing.T) {
 	var mu sync.Mutex
 	bases := map[string]*c17base{}
 	images := map[string][]byte{}
+	boundaries := map[string]int{}
 	intactPath := map[string]string{}
 	getBase := func(n string) *c17base {
 		mu.Lock()
@@ -1106,20 +1490,20 @@ func TestVerifC17(t *testing.T) {
 		bases[n] = b
 		return b
 	}
-	getImage := func(bn, codec string) []byte {
+	getImage := func(bn, codec string) ([]byte, int) {
 		b := getBase(bn)
 		mu.Lock()
 		defer mu.Unlock()
 		k := bn + "." + codec
 		if d, ok := images[k]; ok {
-			return d
+			return d, boundaries[k]
 		}
-		d := c17compress(codec, b.Plain)
-		images[k] = d
-		return d
+		d, bd := c17image(b, codec)
+		images[k], boundaries[k] = d, bd
+		return d, bd
 	}
 	getIntact := func(bn, codec string) string {
-		img := getImage(bn, codec)
+		img, _ := getImage(bn, codec)
 		mu.Lock()
 		defer mu.Unlock()
 		k := bn + "." + codec
@@ -1195,18 +1579,213 @@ func TestVerifC17(t *testing.T) {
 		}
 	}
 
+	// ---- a reader that does not even read the intact file of its format cannot be asked about faults: the cases of
+	// that base are skipped (counted, noted), never reported as held. Today: ReadEcoPCR.
+	var gateMu sync.Mutex
+	gates := map[string]bool{}
+	gateOpen := func(w *c17worker, b *c17base) bool {
+		if b.Fmt != "ecopcr" {
+			return true
+		}
+		gateMu.Lock()
+		defer gateMu.Unlock()
+		if ok, done := gates[b.Name]; done {
+			return ok
+		}
+		resp := call(w, c17req{Mode: "file", Fmt: b.Fmt, Path: getIntact(b.Name, "gz"), K: -1, Want: b.Want})
+		ok := resp.Outcome == "ok" && resp.Equal
+		if ok {
+			resp = call(w, c17req{Mode: "fileimp", Fmt: b.Fmt, Path: getIntact(b.Name, "plain"), K: -1, Want: b.Want})
+			ok = resp.Outcome == "ok" && resp.Equal
+		}
+		gates[b.Name] = ok
+		if !ok {
+			r.Count("format_gate_closed_"+b.Fmt, 1)
+			r.Note("the %s reader does not read the INTACT control file %s (outcome %s %s, %d records): every fault case of this base is skipped (counted in cases_skipped_format_gate), nothing is claimed about it", b.Fmt, b.Name, resp.Outcome, resp.Msg, resp.NRec)
+		}
+		return ok
+	}
+
+	// ---- confirmed hangs are expensive (30 s + 120 s each): after 2 of them in one (base, codec, driver, fault)
+	// group the rest of the group is skipped and the run is marked not exhaustive
+	var hangMu sync.Mutex
+	hangs := map[string]int{}
+	hangGroup := func(c c17case) string { return c.Base + "." + c.Codec + "|" + c.Driver + "|" + c.Fault }
+	hangCapped := func(c c17case) bool {
+		hangMu.Lock()
+		defer hangMu.Unlock()
+		return hangs[hangGroup(c)] >= 2
+	}
+	hangSeen := func(c c17case) {
+		hangMu.Lock()
+		hangs[hangGroup(c)]++
+		hangMu.Unlock()
+	}
+
+	impName := map[string]string{"fasta": "ReadFastxFromFile(imposed-format)", "fastq": "ReadFastxFromFile(imposed-format)",
+		"embl": "ReadEMBLFromFile", "genbank": "ReadGenbankFromFile", "csv": "ReadCSVFromFile", "ecopcr": "ReadEcoPCRFromFile"}
+	rdName := map[string]string{"fasta": "ReadFastx", "fastq": "ReadFastx", "embl": "ReadEMBL", "genbank": "ReadGenbank", "csv": "ReadCSV", "ecopcr": "ReadEcoPCR"}
+	fastx := func(f string) bool { return f == "fasta" || f == "fastq" }
+
+	// ---- command-level variants: what CLIReadBioSequences does around the readers (format options, several
+	// files -> ReadSequencesBatchFromFiles, --paired-with -> PairTo) and a command that loads everything before it
+	// writes (obiuniq). I = intact image of the same base and codec, F = the faulted file.
+	type cliVariant struct {
+		name   string
+		prog   string // obiconvert | obiuniq
+		expect string // single | double | paired | seqset
+		args   func(I, F, out, flag string) []string
+		fastx  bool // FASTA / FASTQ bases only
+	}
+	cliVariants := []cliVariant{
+		{"imposed-format", "obiconvert", "single", func(I, F, out, flag string) []string { return []string{"--" + flag, F} }, false},
+		{"second-of-two-files", "obiconvert", "double", func(I, F, out, flag string) []string { return []string{I, F} }, true},
+		{"first-of-two-files", "obiconvert", "double", func(I, F, out, flag string) []string { return []string{F, I} }, true},
+		{"second-of-two-files+no-order", "obiconvert", "double", func(I, F, out, flag string) []string { return []string{"--no-order", I, F} }, true},
+		{"paired-with-faulted", "obiconvert", "paired", func(I, F, out, flag string) []string { return []string{I, "--paired-with", F, "-o", out} }, true},
+		{"faulted-paired-with-intact", "obiconvert", "paired", func(I, F, out, flag string) []string { return []string{F, "--paired-with", I, "-o", out} }, true},
+		{"obiuniq", "obiuniq", "seqset", func(I, F, out, flag string) []string { return []string{F} }, true},
+	}
+	runCli := func(w *c17worker, c c17case, b *c17base, casePath string, faulted []byte, inproc, fault, region string) {
+		intact := getIntact(c.Base, c.Codec)
+		double := c17digestSorted(append(append([]c17rec{}, b.Recs...), b.Recs...))
+		seqset := func(recs []c17rec) string {
+			m := map[string]bool{}
+			for _, x := range recs {
+				m[x.seq] = true
+			}
+			l := make([]string, 0, len(m))
+			for k := range m {
+				l = append(l, k)
+			}
+			sort.Strings(l)
+			return strings.Join(l, ",")
+		}
+		for _, v := range cliVariants {
+			if v.fastx && !fastx(b.Fmt) {
+				continue
+			}
+			if v.name == "imposed-format" && b.Fmt == "csv" {
+				continue // no --csv option
+			}
+			if c.Fault != "none" && inproc != "failure" {
+				// the reader itself accepts this file (reported above under the reader's key): nothing to learn
+				// from the wrappers
+				r.Count("cli_skipped_reader_accepts", 1)
+				continue
+			}
+			outName := filepath.Join(shardDir, fmt.Sprintf("c17out_w%d.%s", w.id, b.Fmt))
+			r1 := filepath.Join(shardDir, fmt.Sprintf("c17out_w%d_R1.%s", w.id, b.Fmt))
+			r2 := filepath.Join(shardDir, fmt.Sprintf("c17out_w%d_R2.%s", w.id, b.Fmt))
+			os.Remove(r1)
+			os.Remove(r2)
+			prog := bin
+			if v.prog == "obiuniq" {
+				prog = binUniq
+			}
+			br, out := c17runCmd(prog, v.args(intact, casePath, outName, b.Fmt), "", b.Want)
+			r.Count("cli_runs", 1)
+			r.Count("cli_runs_"+v.name, 1)
+			r.Trans(1)
+			who := v.prog + "[" + v.name + "]"
+			if v.name == "imposed-format" {
+				who = v.prog + "[--" + b.Fmt + "]"
+			}
+			cause := "reader-reports-in-process"
+			if !c17hasMagic(c.Codec, faulted) {
+				cause = "not-recognised-as-compressed@" + b.Fmt + "-parser-accepts-garbage"
+			}
+			complete, nrec := false, 0
+			if br.exit == 0 {
+				switch v.expect {
+				case "single":
+					complete, nrec = br.equal, br.nrec
+				case "double":
+					recs := c17parseRecs(out)
+					complete, nrec = c17digestSorted(recs) == double, len(recs)
+				case "paired":
+					o1, e1 := os.ReadFile(r1)
+					o2, e2 := os.ReadFile(r2)
+					n1, d1 := c17parseOut(o1)
+					n2, d2 := c17parseOut(o2)
+					complete, nrec = e1 == nil && e2 == nil && d1 == b.Want && d2 == b.Want, n1+n2
+				case "seqset":
+					recs := c17parseRecs(out)
+					complete, nrec = seqset(recs) == seqset(b.Recs), len(recs)
+				}
+			}
+			r.State(fmt.Sprintf("%s.%s|cli|%s|%s|%d|%v", c.Base, c.Codec, v.name, c.Fault, br.exit, complete))
+			switch {
+			case br.exit == -2:
+				r.Violate(fmt.Sprintf("%s/%s/hang", who, fault), fmt.Sprintf("%s: `%s %s` did not end within 360 s (second attempt)", c, v.prog, strings.Join(v.args("INTACT", "FAULTED", "OUT", b.Fmt), " ")), c)
+			case br.exit == 0 && complete:
+				r.Count("cli_exit0_complete", 1)
+				if c.Fault == "none" {
+					r.Count("cli_control_ok", 1)
+				}
+				if c.Fault == "trunc" {
+					r.Violate(fmt.Sprintf("%s/truncation/accepted-although-truncated:%s:%s", who, c.Codec, region),
+						fmt.Sprintf("%s: `%s %s` exits 0 with the complete output although the reader reports the truncated file in-process", c, v.prog, strings.Join(v.args("INTACT", "FAULTED", "OUT", b.Fmt), " ")), c)
+				}
+			case br.exit == 0:
+				r.Count("cli_exit0_partial", 1)
+				vkey := fmt.Sprintf("%s/%s/exit0-partial:%s:%s:%s", who, fault, cause, c.Codec, region)
+				if strings.HasPrefix(cause, "not-recognised-as-compressed@") {
+					vkey = fmt.Sprintf("%s/%s/exit0-partial:%s", who, fault, cause)
+				}
+				r.Violate(vkey,
+					fmt.Sprintf("%s: `%s %s` (INTACT = the same file without the fault) ends with exit status 0 after writing %d records, not the complete output; in-process the reader reports the fault", c, v.prog, strings.Join(v.args("INTACT", "FAULTED", "OUT", b.Fmt), " "), nrec), c)
+			default:
+				r.Count("cli_exit_nonzero", 1)
+			}
+			if c.Fault == "none" && !(br.exit == 0 && complete) {
+				fail("command-level control case %s variant %s failed: exit %d, %d records, %s", c, v.name, br.exit, nrec, br.msg)
+			}
+		}
+	}
+
+	// controlFailed: an INTACT file is not read completely. For the images written by the Go encoders this can only
+	// be a broken harness; a file written by gzip / bzip2 / xz / zstd themselves, or made of two members, that is
+	// read partially or not at all without the fault being ours is a verdict (records silently lost).
+	controlFailed := func(c c17case, drv, what string, exit0 bool) {
+		if !strings.Contains(c.Codec, ".") {
+			fail("control case %s (%s) failed: %s", c, drv, what)
+			return
+		}
+		sym := "rejected"
+		if exit0 {
+			sym = "silent-partial"
+		}
+		r.Violate(fmt.Sprintf("%s/intact/%s:%s", drv, sym, c.Codec), fmt.Sprintf("%s: an intact file is not read completely: %s", c, what), c)
+	}
+
 	evalCase := func(w *c17worker, c c17case) {
 		b := getBase(c.Base)
-		img := getImage(c.Base, c.Codec)
+		if !gateOpen(w, b) {
+			r.Count("cases_skipped_format_gate", 1)
+			return
+		}
+		if hangCapped(c) {
+			r.Count("cases_skipped_after_two_confirmed_hangs", 1)
+			r.Cap("two confirmed hangs in group " + hangGroup(c) + ": rest of the group skipped")
+			return
+		}
+		img, boundary := getImage(c.Base, c.Codec)
 		fault := c17faultName[c.Fault]
 		var faulted []byte
+		region := "none"
 		switch c.Fault {
 		case "trunc":
 			faulted = img[:c.Pos]
+			region = c17region(len(img), boundary, c.Pos)
 		case "flip":
 			faulted = append([]byte{}, img...)
 			faulted[c.Pos/8] ^= 1 << uint(c.Pos%8)
-		case "none", "rderr":
+			region = c17region(len(img), boundary, c.Pos/8)
+		case "rderr":
+			faulted = img
+			region = c17region(len(img), boundary, c.Pos)
+		case "none":
 			faulted = img
 		default:
 			fail("unknown fault %q", c.Fault)
@@ -1215,25 +1794,31 @@ func TestVerifC17(t *testing.T) {
 		casePath := filepath.Join(shardDir, fmt.Sprintf("c17case_w%d.%s.%s", w.id, b.Fmt, c.Codec))
 		r.Eval(1)
 		r.Count("cases_"+c.Driver+"_"+c.Fault, 1)
+		r.Count("cases_format_"+b.Fmt, 1)
+		if strings.Contains(c.Codec, ".") {
+			r.Count("cases_image_"+c.Codec[strings.IndexByte(c.Codec, '.')+1:], 1)
+		}
 		if c.Fault != "none" {
 			r.Count("faulted_cases_executed", 1)
 		}
+		// what is appended to the keys of an accepted fault: image kind and where the fault falls
+		where := c.Codec + ":" + region
 
 		switch c.Driver {
-		case "file", "fileimp", "reader":
+		case "file", "fileimp", "reader", "readerimp":
 			var req c17req
 			if c.Driver == "file" || c.Driver == "fileimp" {
 				if err := os.WriteFile(casePath, faulted, 0o644); err != nil {
 					fail("%v", err)
 					return
 				}
-				req = c17req{Mode: c.Driver, Path: casePath, K: -1, Want: b.Want}
+				req = c17req{Mode: c.Driver, Fmt: b.Fmt, Path: casePath, K: -1, Want: b.Want}
 			} else {
 				k := c.Pos
 				if c.Fault == "none" {
 					k = -1
 				}
-				req = c17req{Mode: "reader", Path: getIntact(c.Base, c.Codec), K: k, ErrKind: c.ErrKind, Want: b.Want}
+				req = c17req{Mode: c.Driver, Fmt: b.Fmt, Path: getIntact(c.Base, c.Codec), K: k, ErrKind: c.ErrKind, Want: b.Want}
 			}
 			resp := call(w, req)
 			if resp.Outcome == "hang" {
@@ -1250,14 +1835,20 @@ func TestVerifC17(t *testing.T) {
 			r.Count("outcome_"+resp.Outcome, 1)
 			r.State(fmt.Sprintf("%s.%s|%s|%s|%s|%d|%v|%s", c.Base, c.Codec, c.Driver, c.Fault, resp.Outcome, resp.NRec, resp.Equal, normMsg(resp.Msg)))
 			drv := "ReadSequencesFromFile"
-			if c.Driver == "fileimp" {
-				drv = "ReadFastxFromFile(imposed-format)"
+			switch c.Driver {
+			case "fileimp":
+				drv = impName[b.Fmt]
+			case "reader":
+				drv = "Buf+OBIMimeTypeGuesser+" + rdName[b.Fmt] + "(reader)"
+			case "readerimp":
+				drv = "Buf+" + rdName[b.Fmt] + "(reader,imposed-format)"
 			}
-			if c.Driver == "reader" {
-				drv = "Buf+OBIMimeTypeGuesser+ReadFastx(reader)"
+			if c.Driver == "file" && !fastx(b.Fmt) {
+				drv += "[" + b.Fmt + "]"
 			}
 			inproc := "failure"
 			label := "unlabelled"
+			libkey := ""
 			switch resp.Outcome {
 			case "ok":
 				if resp.Equal {
@@ -1270,39 +1861,77 @@ func TestVerifC17(t *testing.T) {
 						// the statement: an input cut short AT ANY BYTE POSITION is reported, even when
 						// every record could still be decoded (trailer / index / footer missing)
 						r.Count("truncated_but_accepted_with_all_records", 1)
-						r.Violate(fmt.Sprintf("%s/truncation/accepted-although-truncated:%s:%s", drv, c.Codec, c17cutName(len(img), c.Pos)),
+						vkey := fmt.Sprintf("%s/truncation/accepted-although-truncated:%s:%s", drv, c.Codec, c17cutName(len(img), c.Pos))
+						preq := req
+						preq.Mode = "probe"
+						if p := call(w, preq); p.Class == "no-decoder-error" {
+							// the decompression library ends the stream cleanly although its trailer is missing:
+							// no reader above it can tell (one key per library, image kind and cut)
+							libkey = fmt.Sprintf("decoder[%s]/truncation/accepted-although-truncated:%s:%s", c17library[c17codecOf(c.Codec)], c.Codec, c17cutName(len(img), c.Pos))
+							vkey = libkey
+						}
+						r.Violate(vkey,
 							fmt.Sprintf("%s: the compressed file is cut at %d of %d bytes, reading succeeds silently (all %d records decoded, no error, no fatal)", c, c.Pos, len(img), resp.NRec), c)
 					}
 				} else {
 					inproc = "success-partial"
+					if c.Fault == "none" {
+						break
+					}
 					r.Count("silent_partial", 1)
 					preq := req
 					preq.Mode = "probe"
+					if c.Driver == "file" || c.Driver == "fileimp" {
+						preq.K = -1
+					}
 					p := call(w, preq)
 					site := "mime-sniffer"
+					if c.Driver == "fileimp" || c.Driver == "readerimp" {
+						site = "chunk-reader-or-parser"
+					}
 					switch {
 					case p.Class == "first-read-error":
 						site = "Buf"
 					case p.Class == "open-error":
 						site = "caller-of-Buf"
 					case p.Class == "no-decoder-error":
-						site = "decompression-library"
+						site = c17library[c17codecOf(c.Codec)]
 					case p.NOK >= 1024*1024:
 						site = "chunk-reader"
 					}
 					label = p.Class + "@" + site
-					r.Violate(fmt.Sprintf("%s/%s/silent-partial:%s", drv, fault, label),
+					if (c.Driver == "file" || c.Driver == "fileimp") && !c17hasMagic(c.Codec, faulted) {
+						// the magic number is cut or damaged: Buf hands the bytes over as an uncompressed
+						// file, and the parser of the (imposed or guessed) format finds no record in them
+						label = "not-recognised-as-compressed@" + b.Fmt + "-parser-accepts-garbage"
+						if c.Driver == "file" {
+							label = "not-recognised-as-compressed@guessed-format-parser-accepts-garbage"
+						}
+					}
+					vkey := fmt.Sprintf("%s/%s/silent-partial:%s:%s", drv, fault, label, where)
+					if strings.HasPrefix(label, "not-recognised-as-compressed@") {
+						// which codec the file had before its magic number was lost does not matter
+						vkey = fmt.Sprintf("%s/%s/silent-partial:%s", drv, fault, label)
+					}
+					if p.Class == "no-decoder-error" && c17hasMagic(c.Codec, faulted) {
+						// the decompression library itself ends the stream cleanly: no reader above it can
+						// tell, the entry point is irrelevant (one key per library, image kind and region)
+						libkey = fmt.Sprintf("decoder[%s]/%s/clean-end-of-stream-on-damaged-input:%s", c17library[c17codecOf(c.Codec)], fault, where)
+						vkey = libkey
+					}
+					r.Violate(vkey,
 						fmt.Sprintf("%s: reading succeeded (no error, no fatal) and delivered %d records, not the %d original ones (%s); the stream opened by Buf gives %d decoded bytes then %s (%s)",
 							c, resp.NRec, b.N, resp.Msg, p.NOK, p.Class, p.Msg), c)
 				}
 			case "hang":
-				r.Violate(fmt.Sprintf("%s/%s/hang", drv, fault), fmt.Sprintf("%s: neither a fatal exit nor the end of the record stream within %v (confirmed by a second run on a fresh process)", c, 4*c17hangTimeout), c)
+				hangSeen(c)
+				r.Violate(fmt.Sprintf("%s/%s/hang:%s", drv, fault, where), fmt.Sprintf("%s: neither a fatal exit nor the end of the record stream within %v (confirmed by a second run on a fresh process)", c, 4*c17hangTimeout), c)
 			case "crash", "panic":
 				r.Count("crash_or_panic_counted_as_reported", 1)
 				note("crash/panic outcome (counts as a reported failure): %s: %s", c, resp.Msg)
 			}
 			if c.Fault == "none" && inproc != "success-full" {
-				fail("control case %s failed: %+v", c, resp)
+				controlFailed(c, drv, fmt.Sprintf("%s %s, %d of %d records", resp.Outcome, resp.Msg, resp.NRec, b.N), inproc == "success-partial")
 				return
 			}
 			if c.Driver == "file" && c.Bin {
@@ -1310,18 +1939,30 @@ func TestVerifC17(t *testing.T) {
 				r.Count("binary_runs", 1)
 				r.Trans(1)
 				bcl := "failure"
+				bdrv := "obiconvert"
+				if !fastx(b.Fmt) {
+					bdrv += "[" + b.Fmt + "]"
+				}
 				switch {
 				case br.exit == -2:
-					r.Violate(fmt.Sprintf("obiconvert/%s/hang", fault), fmt.Sprintf("%s: obiconvert <file> did not end within 360 s (second attempt)", c), c)
+					r.Violate(fmt.Sprintf("%s/%s/hang:%s", bdrv, fault, where), fmt.Sprintf("%s: obiconvert <file> did not end within 360 s (second attempt)", c), c)
 				case br.exit == 0 && br.equal:
 					bcl = "success-full"
 					if c.Fault == "trunc" {
-						r.Violate(fmt.Sprintf("obiconvert/truncation/accepted-although-truncated:%s:%s", c.Codec, c17cutName(len(img), c.Pos)),
-							fmt.Sprintf("%s: the compressed file is cut at %d of %d bytes, `obiconvert <file>` exits 0 (all records written)", c, c.Pos, len(img)), c)
+						vkey := fmt.Sprintf("%s/truncation/accepted-although-truncated:%s:%s", bdrv, c.Codec, c17cutName(len(img), c.Pos))
+						if libkey != "" && inproc == "success-full" {
+							vkey = libkey // same library leniency as in-process: same key
+						}
+						r.Violate(vkey, fmt.Sprintf("%s: the compressed file is cut at %d of %d bytes, `obiconvert <file>` exits 0 (all records written)", c, c.Pos, len(img)), c)
 					}
+				case br.exit == 0 && c.Fault == "none":
+					bcl = "success-partial"
+				case br.exit == 0 && libkey != "" && inproc == "success-partial":
+					bcl = "success-partial" // same library leniency as in-process: same key
+					r.Violate(libkey, fmt.Sprintf("%s: `obiconvert <file>` ends with exit status 0 after writing %d of %d records", c, br.nrec, b.N), c)
 				case br.exit == 0:
 					bcl = "success-partial"
-					r.Violate(fmt.Sprintf("obiconvert/%s/exit0-partial:%s", fault, label),
+					r.Violate(fmt.Sprintf("%s/%s/exit0-partial:%s:%s", bdrv, fault, label, where),
 						fmt.Sprintf("%s: `obiconvert <file>` ends with exit status 0 after writing %d of %d records", c, br.nrec, b.N), c)
 				}
 				r.Count("binary_"+bcl, 1)
@@ -1332,8 +1973,11 @@ func TestVerifC17(t *testing.T) {
 					note("binary/in-process disagreement: %s: in-process %s (%s %s), binary %s (exit %d %s)", c, inproc, resp.Outcome, resp.Msg, bcl, br.exit, br.msg)
 				}
 				if c.Fault == "none" && bcl != "success-full" {
-					fail("binary control case %s failed: %+v", c, br)
+					controlFailed(c, bdrv, fmt.Sprintf("exit %d %s, %d of %d records", br.exit, br.msg, br.nrec, b.N), bcl == "success-partial")
 				}
+			}
+			if c.Driver == "file" && c.Cli {
+				runCli(w, c, b, casePath, faulted, inproc, fault, region)
 			}
 		case "stdin":
 			if err := os.WriteFile(casePath, faulted, 0o644); err != nil {
@@ -1344,10 +1988,17 @@ func TestVerifC17(t *testing.T) {
 			r.Count("binary_runs", 1)
 			r.Trans(1)
 			r.State(fmt.Sprintf("%s.%s|stdin|%s|%d|%d|%v", c.Base, c.Codec, c.Fault, br.exit, br.nrec, br.equal))
+			kind := "" // image kind in the keys when it is not the plain Go gzip image
+			if c.Codec != "gz" {
+				kind = ":" + c.Codec
+				if boundary > 0 {
+					kind += ":" + region
+				}
+			}
 			switch {
 			case br.exit == -2:
 				r.Count("outcome_hang", 1)
-				r.Violate(fmt.Sprintf("obiconvert-stdin/%s/hang", fault), fmt.Sprintf("%s: `obiconvert < file` did not end within 360 s (second attempt)", c), c)
+				r.Violate(fmt.Sprintf("obiconvert-stdin/%s/hang%s", fault, kind), fmt.Sprintf("%s: `obiconvert < file` did not end within 360 s (second attempt)", c), c)
 			case br.exit == 0 && br.equal:
 				r.Count("accepted_with_complete_records", 1)
 				r.Count("stdin_exit0_full", 1)
@@ -1358,16 +2009,21 @@ func TestVerifC17(t *testing.T) {
 					r.Violate(fmt.Sprintf("obiconvert-stdin/truncation/accepted-although-truncated:%s:%s", c.Codec, c17cutName(len(img), c.Pos)),
 						fmt.Sprintf("%s: the compressed stream is cut at %d of %d bytes, `obiconvert < file` exits 0 (all records written)", c, c.Pos, len(img)), c)
 				}
+			case br.exit == 0 && c.Fault == "none":
 			case br.exit == 0:
 				r.Count("silent_partial", 1)
 				r.Count("stdin_exit0_partial", 1)
-				r.Violate(fmt.Sprintf("obiconvert-stdin/%s/exit0-partial:%s@kseq-gzread", fault, c17stdinClass(c.Codec, faulted)),
-					fmt.Sprintf("%s: `obiconvert < file` ends with exit status 0 after writing %d of %d records (reference gzip decoder: %s)", c, br.nrec, b.N, c17refClass(c.Codec, faulted)), c)
+				class := c17stdinClass(c17codecOf(c.Codec), faulted)
+				if class == "not-recognised-as-gzip" {
+					kind = "" // which kind of gzip file it was before its magic number was lost does not matter
+				}
+				r.Violate(fmt.Sprintf("obiconvert-stdin/%s/exit0-partial:%s@kseq-gzread%s", fault, class, kind),
+					fmt.Sprintf("%s: `obiconvert < file` ends with exit status 0 after writing %d of %d records (reference gzip decoder: %s)", c, br.nrec, b.N, c17refClass(c17codecOf(c.Codec), faulted)), c)
 			default:
 				r.Count("stdin_exit_nonzero", 1)
 			}
 			if c.Fault == "none" && !(br.exit == 0 && br.equal) {
-				fail("stdin control case %s failed: %+v", c, br)
+				controlFailed(c, "obiconvert-stdin", fmt.Sprintf("exit %d %s, %d of %d records", br.exit, br.msg, br.nrec, b.N), br.exit == 0)
 			}
 		default:
 			fail("unknown driver %q", c.Driver)
@@ -1418,86 +2074,192 @@ func TestVerifC17(t *testing.T) {
 	}
 	k := 0
 	sizes := map[string]int{}
-	visit := func(c c17case) bool {
+	type suiteOpt struct {
+		truncImp    bool // imposed-format reader on every truncation
+		flipFile    bool
+		flipImpStep int  // imposed-format reader on every n-th bit flip (0: none)
+		rderr       bool // EIO after every k bytes of the compressed stream, sniffing and imposed-format readers
+		binAll      bool // obiconvert <file> on every truncation
+		cli         bool // command-level variants on every truncation and 1 in binRate bit flips
+		stdinTrunc  bool
+		stdinFlip   bool
+		sampled     bool // large image: sampled positions
+	}
+	visit := func(c c17case, o suiteOpt) bool {
 		idx := k
 		k++
 		if !r.Mine(idx) {
 			return true
 		}
-		if c.Driver == "file" && (c.Fault == "none" || int(c17mix(idx)%uint32(binRate)) == 0) {
+		pick := int(c17mix(idx)%uint32(binRate)) == 0
+		if c.Driver == "file" && (c.Fault == "none" || pick || (o.binAll && c.Fault == "trunc")) {
 			c.Bin = true
+		}
+		if c.Driver == "file" && o.cli && (c.Fault == "none" || c.Fault == "trunc" || pick) {
+			c.Cli = true
 		}
 		items <- c17item{idx, c}
 		return !stop.Load()
 	}
+	// suite: every fault of one image of one base
+	suite := func(bn, codec string, o suiteOpt) bool {
+		img, boundary := getImage(bn, codec)
+		sizes[bn+"."+codec] = len(img)
+		if boundary > 0 {
+			sizes[bn+"."+codec+":second-member-at"] = boundary
+		}
+		if !visit(c17case{Base: bn, Codec: codec, Driver: "file", Fault: "none"}, o) {
+			return false
+		}
+		if !visit(c17case{Base: bn, Codec: codec, Driver: "reader", Fault: "none"}, o) {
+			return false
+		}
+		if o.truncImp && !visit(c17case{Base: bn, Codec: codec, Driver: "fileimp", Fault: "none"}, o) {
+			return false
+		}
+		for _, p := range positions(len(img), o.sampled, 1) {
+			if p == boundary {
+				continue // a file that ends exactly where its first member ends is a complete, shorter file
+			}
+			if !visit(c17case{Base: bn, Codec: codec, Driver: "file", Fault: "trunc", Pos: p}, o) {
+				return false
+			}
+			if o.truncImp && !visit(c17case{Base: bn, Codec: codec, Driver: "fileimp", Fault: "trunc", Pos: p}, o) {
+				return false
+			}
+		}
+		if o.flipFile {
+			for bit := 0; bit < 8*len(img); bit++ {
+				if !visit(c17case{Base: bn, Codec: codec, Driver: "file", Fault: "flip", Pos: bit}, o) {
+					return false
+				}
+				if o.flipImpStep > 0 && bit%o.flipImpStep == 0 && !visit(c17case{Base: bn, Codec: codec, Driver: "fileimp", Fault: "flip", Pos: bit}, o) {
+					return false
+				}
+			}
+		}
+		if o.rderr {
+			// read error on the compressed stream (an io.ErrUnexpectedEOF there is the truncation above)
+			if !visit(c17case{Base: bn, Codec: codec, Driver: "readerimp", Fault: "none"}, o) {
+				return false
+			}
+			for _, p := range rdPositions(len(img), o.sampled) {
+				if !visit(c17case{Base: bn, Codec: codec, Driver: "reader", Fault: "rderr", Pos: p, ErrKind: "EIO"}, o) {
+					return false
+				}
+				if !visit(c17case{Base: bn, Codec: codec, Driver: "readerimp", Fault: "rderr", Pos: p, ErrKind: "EIO"}, o) {
+					return false
+				}
+			}
+		}
+		if o.stdinTrunc {
+			// stdin of the command (C kseq / zlib gzread): gzip only
+			if !visit(c17case{Base: bn, Codec: codec, Driver: "stdin", Fault: "none"}, o) {
+				return false
+			}
+			for _, p := range positions(len(img), o.sampled, 1) {
+				if p == boundary {
+					continue
+				}
+				if !visit(c17case{Base: bn, Codec: codec, Driver: "stdin", Fault: "trunc", Pos: p}, o) {
+					return false
+				}
+			}
+		}
+		if o.stdinFlip {
+			for bit := 0; bit < 8*len(img); bit++ {
+				if !visit(c17case{Base: bn, Codec: codec, Driver: "stdin", Fault: "flip", Pos: bit}, o) {
+					return false
+				}
+			}
+		}
+		return true
+	}
+	// read errors on the uncompressed stream
+	plainErrors := func(bn string, sampled bool) bool {
+		b := getBase(bn)
+		o := suiteOpt{}
+		sizes[bn+".plain"] = len(b.Plain)
+		drivers := []string{"reader", "readerimp"}
+		for _, d := range drivers {
+			if !visit(c17case{Base: bn, Codec: "plain", Driver: d, Fault: "none"}, o) {
+				return false
+			}
+		}
+		for _, p := range rdPositions(len(b.Plain), sampled) {
+			for _, ek := range []string{"EIO", "UEOF"} {
+				for _, d := range drivers {
+					if !visit(c17case{Base: bn, Codec: "plain", Driver: d, Fault: "rderr", Pos: p, ErrKind: ek}, o) {
+						return false
+					}
+				}
+			}
+		}
+		return true
+	}
 	func() {
+		// 1. FASTA / FASTQ, images written by the Go encoders
 		for _, bn := range baseNames {
 			b := getBase(bn)
 			for _, codec := range codecs {
-				img := getImage(bn, codec)
-				sizes[bn+"."+codec] = len(img)
-				if !visit(c17case{Base: bn, Codec: codec, Driver: "file", Fault: "none"}) {
+				o := suiteOpt{truncImp: true, flipFile: !b.Large, flipImpStep: 4, rderr: true, sampled: b.Large,
+					cli:        bn == "fa300" && (thorough || codec == "gz" || codec == "zst"),
+					stdinTrunc: codec == "gz", stdinFlip: codec == "gz" && !b.Large}
+				if !suite(bn, codec, o) {
 					return
-				}
-				if !visit(c17case{Base: bn, Codec: codec, Driver: "reader", Fault: "none"}) {
-					return
-				}
-				for _, p := range positions(len(img), b.Large, 1) {
-					if !visit(c17case{Base: bn, Codec: codec, Driver: "file", Fault: "trunc", Pos: p}) {
-						return
-					}
-					if !visit(c17case{Base: bn, Codec: codec, Driver: "fileimp", Fault: "trunc", Pos: p}) {
-						return
-					}
-				}
-				if !visit(c17case{Base: bn, Codec: codec, Driver: "fileimp", Fault: "none"}) {
-					return
-				}
-				if !b.Large {
-					for bit := 0; bit < 8*len(img); bit++ {
-						if !visit(c17case{Base: bn, Codec: codec, Driver: "file", Fault: "flip", Pos: bit}) {
-							return
-						}
-						if bit%4 == 0 && !visit(c17case{Base: bn, Codec: codec, Driver: "fileimp", Fault: "flip", Pos: bit}) {
-							return
-						}
-					}
-				}
-				// read error on the compressed stream (an io.ErrUnexpectedEOF there is the truncation above)
-				for _, p := range rdPositions(len(img), b.Large) {
-					if !visit(c17case{Base: bn, Codec: codec, Driver: "reader", Fault: "rderr", Pos: p, ErrKind: "EIO"}) {
-						return
-					}
 				}
 			}
-			// read errors on the uncompressed stream
-			sizes[bn+".plain"] = len(b.Plain)
-			if !visit(c17case{Base: bn, Codec: "plain", Driver: "reader", Fault: "none"}) {
+			if !plainErrors(bn, b.Large) {
 				return
 			}
-			for _, p := range rdPositions(len(b.Plain), b.Large) {
-				for _, ek := range []string{"EIO", "UEOF"} {
-					if !visit(c17case{Base: bn, Codec: "plain", Driver: "reader", Fault: "rderr", Pos: p, ErrKind: ek}) {
-						return
-					}
+		}
+		// 2. the same files compressed by gzip / bzip2 / xz / zstd themselves
+		for _, bn := range toolBases {
+			for _, codec := range codecs {
+				o := suiteOpt{truncImp: true, flipFile: thorough || bn == "fa300", stdinTrunc: codec == "gz", cli: thorough && bn == "fa300"}
+				if thorough {
+					o.flipImpStep, o.stdinFlip = 4, codec == "gz"
 				}
-			}
-			// stdin of the command (C kseq / zlib gzread): gzip only
-			img := getImage(bn, "gz")
-			if !visit(c17case{Base: bn, Codec: "gz", Driver: "stdin", Fault: "none"}) {
-				return
-			}
-			for _, p := range positions(len(img), b.Large, 1) {
-				if !visit(c17case{Base: bn, Codec: "gz", Driver: "stdin", Fault: "trunc", Pos: p}) {
+				if !suite(bn, codec+".tool", o) {
 					return
 				}
 			}
-			if !b.Large {
-				for bit := 0; bit < 8*len(img); bit++ {
-					if !visit(c17case{Base: bn, Codec: "gz", Driver: "stdin", Fault: "flip", Pos: bit}) {
-						return
-					}
+		}
+		// 3. two members / frames / streams in one file
+		for _, bn := range multiBases {
+			for _, codec := range codecs {
+				o := suiteOpt{truncImp: true, flipFile: true, stdinTrunc: codec == "gz", stdinFlip: codec == "gz"}
+				if !suite(bn, codec+".2m", o) {
+					return
 				}
+			}
+		}
+		// 4. the other formats that ReadSequencesFromFile and --embl / --genbank / --ecopcr dispatch to
+		for _, bn := range fmtBases {
+			for _, codec := range fmtCodecs {
+				o := suiteOpt{truncImp: true, flipFile: true, rderr: true, binAll: true, cli: codec == "gz"}
+				if thorough {
+					o.flipImpStep = 4
+				}
+				if !suite(bn, codec, o) {
+					return
+				}
+			}
+			if !plainErrors(bn, false) {
+				return
+			}
+		}
+		// 5. a record longer than the chunk of the chunk reader (faults reach the buffer extension loop)
+		for _, bn := range longBases {
+			for _, codec := range longCodecs {
+				img, _ := getImage(bn, codec)
+				o := suiteOpt{truncImp: true, rderr: true, sampled: len(img) > 4096}
+				if !suite(bn, codec, o) {
+					return
+				}
+			}
+			if thorough && !plainErrors(bn, true) {
+				return
 			}
 		}
 	}()
@@ -1509,10 +2271,13 @@ func TestVerifC17(t *testing.T) {
 	r.Bound("file_sizes_bytes", sizes)
 	r.Bound("work_items_all_shards", k)
 	r.Sample(c17case{Base: "fa300", Codec: "gz", Driver: "file", Fault: "trunc", Pos: sizes["fa300.gz"] / 2})
-	r.Sample(c17case{Base: "fq2k", Codec: "zst", Driver: "file", Fault: "flip", Pos: 8*40 + 3})
-	r.Sample(c17case{Base: "fq2k", Codec: "plain", Driver: "reader", Fault: "rderr", Pos: 1000, ErrKind: "EIO"})
-	r.Sample(c17case{Base: "fa300", Codec: "gz", Driver: "stdin", Fault: "trunc", Pos: 100})
+	r.Sample(c17case{Base: "fq2k", Codec: "zst.tool", Driver: "file", Fault: "flip", Pos: 8*40 + 3})
+	r.Sample(c17case{Base: "em400", Codec: "plain", Driver: "readerimp", Fault: "rderr", Pos: 1000, ErrKind: "EIO"})
+	r.Sample(c17case{Base: "fa300", Codec: "gz.2m", Driver: "stdin", Fault: "trunc", Pos: 100})
 	r.RequireNonVacuous("faulted_cases_executed")
 	r.RequireNonVacuous("binary_runs")
 	r.RequireNonVacuous("control_ok")
+	if len(restricted) == 0 {
+		r.RequireNonVacuous("cli_runs")
+	}
 }
